@@ -10,7 +10,9 @@ package vh
 // server and from a new server on the same directory.
 
 import (
+	"encoding/json"
 	"fmt"
+	"sort"
 	"os"
 	"strings"
 	"testing"
@@ -28,7 +30,7 @@ const c02xRule = "TestC02Faults: directory store, no collection policy; request 
 	"answered; oracle = every acknowledged and not uncertain blob, manifest and tag reads back 200 with the pushed bytes (and digest header for tags) from the running server and after Close + New; " +
 	"non-trivial = at least 3 objects were acknowledged before the step that received the fault and at least one after it; distinct = (history, k)"
 
-func c02xProperty(t *rapid.T, st *Stats) {
+func c02xProperty(t *rapid.T, st *Stats, owner string) {
 	tmp := mkTemp("c02x")
 	defer os.RemoveAll(tmp)
 	steps := c12fHistory(t)
@@ -138,9 +140,31 @@ func c02xProperty(t *rapid.T, st *Stats) {
 	}
 	vfs.Reset(root, false)
 	check := func(srv *olareg.Server, when string) {
+		if owner == "C03" {
+			// the listing is exactly the set of tags that resolve, each once, in lexical order
+			u := c12fUniverse()
+			for _, rn := range []string{"r", "r/n"} {
+				resolvable := []string{}
+				for _, tg := range u.tags {
+					if g := doReq(srv, "HEAD", "/v2/"+rn+"/manifests/"+tg, nil, hdr("Accept", acceptAll)); g.code == 200 {
+						resolvable = append(resolvable, tg)
+					}
+				}
+				sort.Strings(resolvable)
+				l := doReq(srv, "GET", "/v2/"+rn+"/tags/list", nil, nil)
+				var tl struct{ Tags []string }
+				_ = json.Unmarshal(l.body, &tl)
+				if l.code == 200 && fmt.Sprint(tl.Tags) != fmt.Sprint(resolvable) && !(len(tl.Tags) == 0 && len(resolvable) == 0) {
+					fail("tag-list-inexact-after-io-error", "%s: tags/list of %s is %v, the tags that resolve are %v (fault %s in step %d %q)", when, rn, tl.Tags, resolvable, faultOp, faultStep, stepName(steps, faultStep))
+				}
+			}
+		}
 		for _, key := range sortedKeys(acked) {
 			o := acked[key]
 			p := strings.SplitN(key, ":", 3)
+			if owner == "C03" && p[0] != "tag" {
+				continue
+			}
 			var r resp
 			switch p[0] {
 			case "blob":
@@ -176,5 +200,16 @@ func c02xProperty(t *rapid.T, st *Stats) {
 
 func TestC02Faults(t *testing.T) {
 	st := newStats("TestC02Faults", "C02", c02xRule)
-	rapid.Check(t, func(rt *rapid.T) { c02xProperty(rt, st) })
+	rapid.Check(t, func(rt *rapid.T) { c02xProperty(rt, st, "C02") })
+}
+
+// C03 on the same histories: a tag that was acknowledged and that no later request addressed still resolves to the
+// manifest pushed under it, and the listing is exactly the set of resolvable tags - whatever failed in between.
+const c03xRule = "TestC03Faults: the histories and faults of TestC02Faults (directory store, reading and mutating faults, short writes, restarts); oracle = every tag acknowledged with 201 that no later tag push, tag delete or manifest delete " +
+	"addressed resolves to the manifest pushed under it, and tags/list of both repositories equals the sorted set of tags that resolve, on the running server and after Close + New; " +
+	"non-trivial = at least 3 objects were acknowledged before the step that received the fault and at least one after it; distinct = (history, k)"
+
+func TestC03Faults(t *testing.T) {
+	st := newStats("TestC03Faults", "C03", c03xRule)
+	rapid.Check(t, func(rt *rapid.T) { c02xProperty(rt, st, "C03") })
 }
